@@ -369,15 +369,21 @@ class ConcRunner:
         # observe the batch each exec_jobs call selects (argument of the private __exec_jobs)
         self.selected = {}
         self.stable = []           # (id(job), due instant) at creation and after every completed rescheduling
-        orig_exec = self.sched._Scheduler__exec_jobs
+        orig_exec = getattr(self.sched, "_Scheduler__exec_jobs", None)
 
-        def spy_exec(jobs, ref_dt):
+        def spy_exec(jobs, ref_dt, *a_, **k_):
             st = coop.controller().current
             eid = getattr(st, "exec_id", None) if st is not None else None
-            self.selected[eid] = list(jobs)
-            return orig_exec(jobs, ref_dt)
+            try:
+                self.selected[eid] = list(jobs)
+            except TypeError:
+                pass
+            return orig_exec(jobs, ref_dt, *a_, **k_)
 
-        self.sched._Scheduler__exec_jobs = spy_exec
+        if callable(orig_exec):
+            # (an implementation that organises exec_jobs differently is simply not observed here: the batch is then taken
+            # from the invocations)
+            self.sched._Scheduler__exec_jobs = spy_exec
         # ground truth for concurrent readers: the instant every JobTimer holds at the END of each calc_next_exec,
         # taken under the timer's own (re-entrant) lock, i.e. never a half-done value
         import scheduler.base.job_timer as _bt
@@ -385,7 +391,10 @@ class ConcRunner:
         runner_ = self
 
         def calc_next_exec(timer, *a, **k):
-            with timer._JobTimer__lock:
+            lk = timer.__dict__.get("_JobTimer__lock")
+            if lk is None or "_JobTimer__next_exec" not in timer.__dict__:
+                return runner_._orig_calc(timer, *a, **k)        # timers organised differently: no timer-level samples
+            with lk:
                 ret = runner_._orig_calc(timer, *a, **k)
                 runner_.timer_vals.append((id(timer), inst_of(timer._JobTimer__next_exec)))
             return ret
